@@ -693,6 +693,7 @@ func (s *Session) enterBlock(fr *Frame, b *ssa.BasicBlock) *State {
 			s.assume(Ge(st.Top, topEntry))
 		}
 	}
+	s.havocVisitGhosts(fr, lb, st)
 	if lf := fr.loopFrames[b]; lf != nil {
 		lf.head = st.clone()
 	}
@@ -1144,6 +1145,9 @@ func (s *Session) step(fr *Frame, in ssa.Instruction, st *State) {
 	case *ssa.Range:
 		fr.vals[x] = Val{Typ: x.Type(), L: []T{s.fresh("iter", SInt)}, Tup: nil}
 		s.rangeSrc(fr)[x] = x.X
+		if mt, isMap := x.X.Type().Underlying().(*types.Map); isMap {
+			s.mapRangeStart(fr, x, mt, st)
+		}
 	case *ssa.Next:
 		s.next(fr, x, st)
 	case *ssa.MakeClosure:
@@ -1790,6 +1794,7 @@ func (s *Session) mapUpdate(fr *Frame, x *ssa.MapUpdate, st *State) {
 		h := s.heapGet(st, valN[i], valS[i])
 		st.Heap[valN[i]] = s.define("H", Store(h, m, Store(Select(h, m), k, v.L[i])))
 	}
+	s.bumpMapVersion(st, mt, m)
 }
 
 // mapLookupRaw: like mapLookup but without the "absent => zero value" normalisation (raw stored value).
@@ -1866,6 +1871,7 @@ func (s *Session) next(fr *Frame, x *ssa.Next, st *State) {
 			}
 			mv, had := s.mapLookup(st, mt, m, k)
 			s.assume(Imp(ok, had))
+			s.mapRangeNext(fr, x, mt, m, k, ok, st)
 			if tup.At(2).Type() != types.Typ[types.Invalid] && len(mv.L) == len(out.Tup[2].L) {
 				for i := range mv.L {
 					s.assume(Imp(ok, Eq(out.Tup[2].L[i], mv.L[i])))
@@ -1887,7 +1893,7 @@ func (s *Session) loopFrameObligations(fr *Frame, lf *loopFrame, st *State, cond
 	}
 	sort.Strings(names)
 	for _, n := range names {
-		if strings.HasPrefix(n, "G:") || strings.HasPrefix(n, "X:ev") || strings.HasPrefix(n, "X:txn:") {
+		if strings.HasPrefix(n, "G:") || strings.HasPrefix(n, "X:ev") || strings.HasPrefix(n, "X:txn:") || strings.HasPrefix(n, "X:visit:") {
 			continue
 		}
 		cur := st.Heap[n]
